@@ -27,6 +27,7 @@ RULE = (
 ASSUMPTIONS = [
     "cyclic graphs are instantiated through instance() only (they cannot be submitted)",
     "expected pre-tasks of a route = pre-tasks attached to the configurations that route turns into objects",
+    "with a shared ObjectStore the pre-tasks are judged per instance() call (the statement speaks of turning one graph into objects): a pre-task attached in both graphs may run in both calls; objects are still created and initialised once overall",
 ]
 SHARDS = {"quick": 16, "thorough": 16}
 MINIMUMS = {
@@ -165,6 +166,7 @@ def route_shared_store(ctx, recipe, b, root, rng):
     calllog.LOG = []
     try:
         o1 = b.real[root].instance(DirectoryContext(Path("/xvinst")), objects=store)
+        split = len(calllog.LOG)
         o2 = other.instance(DirectoryContext(Path("/xvinst")), objects=store)
     except RecursionError:
         calllog.LOG = None
@@ -178,7 +180,31 @@ def route_shared_store(ctx, recipe, b, root, rng):
     if r.diffs:
         ctx.violation("runtime-graph-differs:shared-store", f"{r.diffs[:3]}", w)
         return
-    check_log(ctx, w, "shared-store", log, images_of(r), expected_pre_objects(r))
+    # objects are created and initialised once over both calls; pre-tasks are judged per call (each call turns
+    # one graph into objects and runs the pre-tasks of that graph once; a pre-task shared by both graphs may run in both)
+    imgs = images_of(r)
+    post = {}
+    for ev, oid, cls, extra in log:
+        if ev == "post_init":
+            post[oid] = post.get(oid, 0) + 1
+    for oid, (path, cfg) in imgs.items():
+        ctx.count("post_init_checked")
+        if post.get(oid, 0) != 1:
+            ctx.violation("post-init-count", f"shared-store: __post_init__ ran {post.get(oid, 0)} times for the object of {path}", w)
+            break
+    expected = set(expected_pre_objects(r))
+    for part, name in ((log[:split], "first call"), (log[split:], "second call")):
+        per = {}
+        for ev, oid, cls, extra in part:
+            if ev == "pre_execute":
+                per[oid] = per.get(oid, 0) + 1
+        for oid, n in per.items():
+            ctx.count("pre_tasks_checked")
+            if n != 1:
+                ctx.violation("pre-task-executed-twice", f"shared-store, {name}: a pre-task was executed {n} times within one instance() call", w)
+    ran = {oid for ev, oid, cls, extra in log if ev == "pre_execute"}
+    if expected - ran:
+        ctx.violation("pre-task-count", f"shared-store: {len(expected - ran)} pre-task(s) attached in the graphs were never executed", w)
 
 
 def route_from_parameters(ctx, recipe, b, root, rng):
